@@ -12,6 +12,7 @@ import (
 	paramtypes "github.com/cosmos/cosmos-sdk/x/params/types"
 	stakingtypes "github.com/cosmos/cosmos-sdk/x/staking/types"
 
+	keytypes "github.com/ExocoreNetwork/exocore/types/keys"
 	dogfoodtypes "github.com/ExocoreNetwork/exocore/x/dogfood/types"
 	"github.com/ExocoreNetwork/exocore/x/oracle/keeper"
 	"github.com/ExocoreNetwork/exocore/x/oracle/types"
@@ -23,31 +24,57 @@ func nm(f string, a ...interface{}) string { return fmt.Sprintf(f, a...) }
 
 const verifAuthority = "exo1nxvenxvenxvenxvenxvenxvenxvenxve26l8hm"
 
-var verifValAcc = []string{
-	"exo1qyqszqgpqyqszqgpqyqszqgpqyqszqgp22qtfv",
-	"exo1qgpqyqszqgpqyqszqgpqyqszqgpqyqszmwxwz6",
-	"exo1qvpsxqcrqvpsxqcrqvpsxqcrqvpsxqcr6780gm",
+// validators: consensus keys; the consensus address (first 20 bytes of sha256(key)) doubles as
+// the account address that signs the price transactions, as in the repo's own oracle tests
+var verifKeyB64 = []string{
+	"MTExMTExMTExMTExMTExMTExMTExMTExMTExMTExMTE=",
+	"MjIyMjIyMjIyMjIyMjIyMjIyMjIyMjIyMjIyMjIyMjI=",
+	"MzMzMzMzMzMzMzMzMzMzMzMzMzMzMzMzMzMzMzMzMzM=",
+}
+var verifValAcc []string
+var verifValKeys []keytypes.WrappedConsKey
+
+func verifInitValidators() {
+	verifValAcc, verifValKeys = nil, nil
+	for _, b := range verifKeyB64 {
+		k := keytypes.NewWrappedConsKeyFromJSON(`{"@type":"/cosmos.crypto.ed25519.PubKey","key":"` + b + `"}`)
+		verifValKeys = append(verifValKeys, k)
+		verifValAcc = append(verifValAcc, sdk.AccAddress(k.ToConsAddr()).String())
+	}
 }
 
-// verifDogfood stands in for the dogfood keeper: a fixed validator set, no updates.
+// verifDogfood stands in for the dogfood keeper: a validator set that may change once, in the
+// EndBlock of block updateAt (dogfood's EndBlock runs before the oracle's): that block's update
+// list carries the change and from the next block on the stored set is the new one.
 type verifDogfood struct {
-	vals []dogfoodtypes.ExocoreValidator
+	vals     []dogfoodtypes.ExocoreValidator
+	updateAt int64 // 0: never
+	newVals  []dogfoodtypes.ExocoreValidator
+	updates  []abci.ValidatorUpdate
 }
 
-func (d *verifDogfood) GetLastTotalPower(sdk.Context) sdkmath.Int {
+func (d *verifDogfood) GetLastTotalPower(ctx sdk.Context) sdkmath.Int {
 	t := sdkmath.ZeroInt()
-	for _, v := range d.vals {
+	for _, v := range d.GetAllExocoreValidators(ctx) {
 		t = t.Add(sdkmath.NewInt(v.Power))
 	}
 	return t
 }
 func (d *verifDogfood) IterateBondedValidatorsByPower(sdk.Context, func(int64, stakingtypes.ValidatorI) bool) {
 }
-func (d *verifDogfood) GetValidatorUpdates(sdk.Context) []abci.ValidatorUpdate { return nil }
+func (d *verifDogfood) GetValidatorUpdates(ctx sdk.Context) []abci.ValidatorUpdate {
+	if d.updateAt != 0 && ctx.BlockHeight() == d.updateAt {
+		return d.updates
+	}
+	return nil
+}
 func (d *verifDogfood) GetValidatorByConsAddr(sdk.Context, sdk.ConsAddress) (stakingtypes.Validator, bool) {
 	return stakingtypes.Validator{}, false
 }
-func (d *verifDogfood) GetAllExocoreValidators(sdk.Context) []dogfoodtypes.ExocoreValidator {
+func (d *verifDogfood) GetAllExocoreValidators(ctx sdk.Context) []dogfoodtypes.ExocoreValidator {
+	if d.updateAt != 0 && ctx.BlockHeight() > d.updateAt {
+		return d.newVals
+	}
 	return d.vals
 }
 
@@ -126,10 +153,24 @@ func VerifC14Restart() {
 	const nv = 3
 	start := int64(verifrt.Param("start_height", 20))
 	ctx := verifrt.NewContext(start, 1700000000, "exocoretestnet_233-1")
+	verifInitValidators()
 	d := &verifDogfood{}
 	for v := 0; v < nv; v++ {
-		a, _ := sdk.AccAddressFromBech32(verifValAcc[v])
-		d.vals = append(d.vals, dogfoodtypes.ExocoreValidator{Address: a, Power: 1})
+		d.vals = append(d.vals, dogfoodtypes.ExocoreValidator{Address: verifValKeys[v].ToConsAddr(), Power: 1})
+	}
+	// optionally the validator set changes once, in some block of the run: validator 0 doubles
+	// its power, or validator 2 leaves
+	if verifrt.Param("validator_update", 0) == 1 {
+		if ub := verifrt.Choice("validator_update_block", history+after+1); ub > 0 {
+			d.updateAt = start + int64(ub) - 1
+			if verifrt.Choice("validator_update_kind", 2) == 0 {
+				d.newVals = []dogfoodtypes.ExocoreValidator{{Address: d.vals[0].Address, Power: 2}, d.vals[1], d.vals[2]}
+				d.updates = []abci.ValidatorUpdate{{PubKey: *verifValKeys[0].ToTmProtoKey(), Power: 2}}
+			} else {
+				d.newVals = []dogfoodtypes.ExocoreValidator{d.vals[0], d.vals[1]}
+				d.updates = []abci.ValidatorUpdate{{PubKey: *verifValKeys[2].ToTmProtoKey(), Power: 0}}
+			}
+		}
 	}
 	ps := paramtypes.NewSubspace(verifrt.Codec(), codec.NewLegacyAmino(), verifrt.StoreKey("params"), verifrt.StoreKey("tparams"), types.ModuleName)
 	k := keeper.NewKeeper(verifrt.Codec(), verifrt.StoreKey(types.StoreKey), verifrt.StoreKey(types.MemStoreKey), ps, d, nil, nil, verifAuthority)
@@ -191,11 +232,18 @@ func VerifC14Restart() {
 		resA[b] = verifRunBlock(ctx, k, am, ms, h, &plans[b], based(h), true)
 		snaps[b] = verifrt.Snapshot(ctx)
 		verifDebug("continuous", ctx, k, h, resA[b])
-		if p.TokenFeeders[1].EndBlock == 0 {
+		if p.TokenFeeders[1].EndBlock == 0 && d.updateAt == 0 {
 			verifRoundIDs(ctx, k, p, h)
 		}
 	}
 
+	if after == 0 {
+		// continuous run only (used by the C12 round-number check)
+		if _, found := k.GetPriceTRLatest(ctx, 1); found {
+			verifrt.Cover("a price was finalized or a round failed")
+		}
+		return
+	}
 	// ---- restarted instance: memory is gone, the store committed after `history` blocks remains
 	keeper.ResetAggregatorContext()
 	keeper.ResetCache()
